@@ -109,7 +109,9 @@ def rep(blk, at, to, patch):
 def mods_name(mods):
     out = []
     for m in mods:
-        if m["op"] == "insert":
+        if m["op"] == "insert_function":
+            out.append("fn:%s:%s" % (m["name"], m["patch"]))
+        elif m["op"] == "insert":
             out.append("i%s@%d:%s" % (m["blk"], m["at"], m["patch"]))
         elif m["op"] == "delete":
             out.append("d%s[%d,%d)%s" % (m["blk"], m["at"], m["to"], "P" if m.get("proxy") else ""))
@@ -266,6 +268,13 @@ def shapes(tier):
         spec = text_layout("jcc:s0")
         spec["mods"] = [ins("b1", 1, p)]
         out.append(("text/jcc:s0/%s" % mods_name(spec["mods"]), spec))
+    for mods in ([{"op": "insert_function", "name": "newfn", "patch": "func_body"}],
+                 [{"op": "insert_function", "name": "newfn", "patch": "func_simple"}, ins("b1", 1, "call:newfn")],
+                 [{"op": "insert_function", "name": "newfn", "patch": "func_body"}, dele("b1", 0, 3)]):
+        spec = text_layout("jcc:s0", annots=False)
+        spec["sections"][0]["blocks"][0]["align"] = 1  # a user alignment entry keeps gtirb_layout from guessing alignments
+        spec["mods"] = copy.deepcopy(mods)
+        out.append(("newfunc/%s" % mods_name(mods), spec))
     # no function tables at all
     for mods in ([ins("b1", 1, "mov")], [dele("b1", 0, 3)], [dele("b1", 1, 2)]):
         spec = text_layout("jcc:s0", funcs=False)
